@@ -73,6 +73,10 @@ def _run_one(args):
             rules = expect if isinstance(expect, (list, tuple)) else [expect]
             hit = any(r == "*" or any(g.startswith(r.split("@")[0] + "@") and (("@" not in r) or r.split("@")[1] in g) for g in got) for r in rules) and bool(got)
             res["pass"] = code == 1 and hit
+            if variant.get("guarded"):
+                # a kept mutant that the soundness guard declines to judge (it works through code of another module reached by a
+                # new import): the check must not pass it (exit 0) and must say why it does not decide (exit 2, guard reason)
+                res["pass"] = (code == 1 and hit) or (code == 2 and any("[not decided:" in u for u in res["undecided"]))
             if not res["pass"]:
                 res["why"] = f"breaking variant not reported under {rules}: exit {code}, violations {got}, undecided {res['undecided']}, errors {res['errors']}"
         return res
@@ -101,7 +105,7 @@ def run_selftest(prop, mod, rep, jobs=None):
         except Exception:
             continue
         if prop in (meta.get("static_checks", {}).get("caught_by") or []) or meta.get("property") == prop:
-            variants.append({"name": f"seeded {os.path.basename(d)}: {str(meta.get('what_breaks', ''))[:70]}", "edits": [], "patch": os.path.join(d, "patch.diff"), "expect": "*"})
+            variants.append({"name": f"seeded {os.path.basename(d)}: {str(meta.get('what_breaks', ''))[:70]}", "edits": [], "patch": os.path.join(d, "patch.diff"), "expect": "*", "guarded": bool(meta.get("guarded"))})
     for d in sorted(glob.glob(os.path.join(here, "benign", "*"))):
         variants.append({"name": f"benign {os.path.basename(d)}", "edits": [], "patch": os.path.join(d, "patch.diff"), "expect": "ok"})
     jobs = jobs or min(16, max(1, len(variants)))
